@@ -606,9 +606,17 @@ class ExecutionState:
 
             all_descendants.add(current_id)
 
-            # Add all direct children to processing queue
+            # Add all direct children to processing queue: the ones that checkpointed during
+            # this invocation and the ones earlier invocations already recorded (on replay a
+            # branch that is found STARTED does not send its START again)
             direct_children = self._parent_to_children.get(current_id, set())
             to_process.update(direct_children)
+            with self._operations_lock:
+                to_process.update(
+                    op.operation_id
+                    for op in self.operations.values()
+                    if op.parent_id == current_id
+                )
 
         # Remove the root itself (we only want descendants)
         all_descendants.discard(context_id)
